@@ -592,6 +592,18 @@ def b_random_sample(S):
         default_num="Rat", join="tuple")
 
 
+def b_geo_reader(S):
+    """whole `read_geofile`: what `gpd.read_file(path)` returns NOW (parameter), TypeError unless it is a frame; and the function carries no decorator (a memo keyed by
+    the path would be invisible in its body)."""
+    fn = find_func(ast.parse(S[GENERAL]), "read_geofile")
+    if fn.decorator_list:
+        raise Untranslatable("read_geofile: decorated (" + ", ".join(ast.unparse(d) for d in fn.decorator_list) + ")")
+    C = {"gpd.read_file(path)": "(read_ path)", "isinstance(data, gpd.GeoDataFrame)": "(is_frame data)"}
+    T = {"gpd.read_file(path)": "D", "isinstance(data, gpd.GeoDataFrame)": "Bool", "data": "D"}
+    return translate_function(S[GENERAL], "read_geofile", "read_geofile", {"path": "String"}, "D", C, types=T, raises=True,
+                              extra_params=[("{D}", "Type"), ("read_", "String → D"), ("is_frame", "D → Bool")], default_num="Nat")
+
+
 def b_aggregate_dispatch(S):
     """default aggregator of aggregate_chosen and the fallback chain (shape-checked constants)"""
     tree = ast.parse(S[SUBS])
@@ -2661,6 +2673,7 @@ ITEMS: List[Item] = [
     Item("Windows", TVALS, ["C10", "C03", "C06"], b_windows, extra_modules=[BAN]),
     Item("RandomRadius", RSAMP, ["C20"], b_random_radius, extra_modules=[GENERAL]),
     Item("AggregateDispatch", SUBS, ["C20"], b_aggregate_dispatch),
+    Item("GeoReader", GENERAL, ["C19"], b_geo_reader),
     Item("RandomSample", RSAMP, ["C20"], b_random_sample),
     Item("Subsampling", SUBS, ["C20"], b_subsampling, deps=["ParamTable"], extra_modules=[GENERAL]),
 ]
